@@ -82,7 +82,11 @@ template <class Scalar> static std::vector<Outcome> run_t(const Spec &s, const N
   for (auto &kv : c.params) { auto it = held.find(kv.first); if (it == held.end()) continue; Scalar want = (Scalar)kv.second, got = (Scalar)it->second; if (memcmp(&want, &got, sizeof(Scalar) > 8 ? 10 : 8) != 0 && !(want == 0 && got == 0)) { Outcome o; o.label = "parameter-store:" + kv.first; o.lib = it->second; o.ref = Q(kv.second); o.err = 1e300; o.status = 1; o.note = "masa_set_param/masa_get_param do not preserve the value at the precision of this scalar type"; out.push_back(o); break; } }
   Scalar pts[4]; Q ptq[4]; for (int i = 0; i < 4; i++) { pts[i] = (Scalar)c.pt[i]; ptq[i] = Q((long double)pts[i]); }
   long double ptl[4]; double ptd[4]; for (int i = 0; i < 4; i++) { ptl[i] = (long double)pts[i]; ptd[i] = (double)pts[i]; }
-  auto call = [&](const Ev &e, const long double *al, const double *ad) -> long double { Quiet q; if (sizeof(Scalar) > 8) return e.ld(al); return (long double)e.d(ad); };
+  // rmode >= 0: the library (and only the library; the binary128 reference always runs in round-to-nearest) is called under that
+  // directed rounding mode, and judged with the tolerance Kuse
+  int rmode = -1; double Kuse = K;
+  auto call = [&](const Ev &e, const long double *al, const double *ad) -> long double { Quiet q; struct RM { int m; RM(int mm) : m(mm) { if (m >= 0) std::fesetround(m); } ~RM() { if (m >= 0) std::fesetround(FE_TONEAREST); } } rm(rmode);
+    if (sizeof(Scalar) > 8) return e.ld(al); return (long double)e.d(ad); };
   std::string prefix;
   // evaluation order: the evaluators of the solution are called in the catalogue order of the spec, rotated by a case-dependent offset
   // (a pure function of the case, so the replay repeats it): an evaluator that relies on a sibling having been called first at this
@@ -91,7 +95,7 @@ template <class Scalar> static std::vector<Outcome> run_t(const Spec &s, const N
   auto evaluate_all = [&]() {
   for (size_t ei = 0; ei < s.evals.size(); ei++) { const Ev &e = s.evals[(ei + rot) % s.evals.size()];
     if (!wanted(e, prop)) continue; if (!c.only.empty() && c.only != e.label) continue;
-    Outcome o; o.label = prefix + e.label; o.finding_cell = (bool)e.asbuilt;
+    Outcome o; o.label = prefix + e.label; o.finding_cell = (bool)e.asbuilt; o.directed = rmode >= 0;
     try {
       if (e.skip && e.skip(p, ptq)) { o.status = 3; o.note = "within 1e-6 of a switching surface of the model"; out.push_back(o); continue; }
       o.lib = call(e, ptl, ptd);
@@ -105,8 +109,8 @@ template <class Scalar> static std::vector<Outcome> run_t(const Spec &s, const N
       auto errof = [&](const Q &r) -> double { __float128 diff = fabsq((__float128)o.lib - r.v); if (diff <= (__float128)std::numeric_limits<Scalar>::min()) return 0.0; /* underflow is not a roundoff violation */ if (!(r.m > 0)) return 1e300; double v = (double)(diff / r.m / (__float128)eps); return std::isfinite(v) ? v : 1e300; };
       o.err = std::isfinite((double)o.lib) || std::isfinite(o.lib) ? errof(o.ref) : 1e300;
       if (!std::isfinite(o.lib)) { o.status = 1; o.note = "non-finite value for finite admissible input"; }
-      else if (o.err <= K) o.status = 0;
-      else if (e.asbuilt) { Q ab = e.asbuilt(p, ptq); double eab = errof(ab); o.errab = eab; if (eab <= K) { o.status = 2; o.finding = e.finding; o.note = "matches the as-built operator to " + std::to_string(eab) + " eps*mag, not the operator the property names"; } else { o.status = 1; o.note = "matches neither the property operator nor the recorded as-built operator (as-built err " + std::to_string(eab) + ")"; } }
+      else if (o.err <= Kuse) o.status = 0;
+      else if (e.asbuilt) { Q ab = e.asbuilt(p, ptq); double eab = errof(ab); o.errab = eab; if (eab <= Kuse) { o.status = 2; o.finding = e.finding; o.note = "matches the as-built operator to " + std::to_string(eab) + " eps*mag, not the operator the property names"; } else { o.status = 1; o.note = "matches neither the property operator nor the recorded as-built operator (as-built err " + std::to_string(eab) + ")"; } }
       else o.status = 1;
     } catch (std::exception &ex) { o.status = 1; o.err = 1e300; o.note = std::string("exception: ") + ex.what(); }
     out.push_back(o);
@@ -135,6 +139,20 @@ template <class Scalar> static std::vector<Outcome> run_t(const Spec &s, const N
     { Quiet q; for (auto &kv : held) masa_set_param<Scalar>(kv.first, (Scalar)(kv.second * 1.0625L)); }
     auto held2 = read_params<Scalar>(names); p.clear(); for (auto &kv : held2) p[kv.first] = Q(kv.second);
     prefix = "after set_param: "; poison(); evaluate_all(); mirror(); prefix.clear(); }
+  // Third phase, one case in eight: the rounding mode is ambient process state as well (an application that does interval arithmetic or
+  // reproduces a directed-rounding run leaves it set). The values the properties name do not depend on it beyond roundoff: every evaluator
+  // is called once more, at the same point with the parameters of the last phase, under FE_UPWARD, FE_DOWNWARD or FE_TOWARDZERO (a pure
+  // function of the case) and must meet the same reference within DIRECTED_K_FACTOR * K: directed rounding turns the random walk of the
+  // rounding errors into a drift, so the tolerance is wider (calibration in DESIGN.md 8.8), but an iteration that no longer converges, a
+  // comparison that flips or a guard that bails out is off by many orders of magnitude more.
+  // Not at the channel centreline of rans_sa (eta == 1 exactly): there du = a1 - a1*eta is an exact zero whose SIGN is the rounding mode's
+  // (x - x is -0 under FE_DOWNWARD), r = nu/(s kappa^2 eta^2) is +inf (limited to 10) or -inf (NaN in g) accordingly. The unchanged library
+  // returns NaN there under FE_DOWNWARD; C05 speaks about the closure at admissible points and makes no promise about the sign of a zero
+  // divisor under a non-default rounding mode, so the first version of this phase raised a false alarm (DESIGN.md 8.8).
+  const bool sign_of_zero_point = s.name == "rans_sa" && c.pt[0] == 1;
+  if (c.only.empty() && !sign_of_zero_point && case_hash(c) % 8 == 5) { static const int modes[3] = {FE_UPWARD, FE_DOWNWARD, FE_TOWARDZERO}; static const char *mn[3] = {"upward", "downward", "toward zero"};
+    int k = (int)((case_hash(c) >> 3) % 3); rmode = modes[k]; Kuse = K * DIRECTED_K_FACTOR; prefix = std::string("rounding ") + mn[k] + ": ";
+    evaluate_all(); std::fesetround(FE_TONEAREST); rmode = -1; Kuse = K; prefix.clear(); }
   verify_bystander("end of case");
   if (s.relations && c.only.empty() && prop != "C07") { try { s.relations(c, p, out, K); } catch (std::exception &ex) { Outcome o; o.label = "relations"; o.status = 1; o.err = 1e300; o.note = ex.what(); out.push_back(o); } }
   return out;
